@@ -366,12 +366,14 @@ pub fn propagate_comparison(
                 // TODO: Propagation is not possible until we support interval sets.
                 Ok(None)
             }
-            Operator::Gt => satisfy_greater(right_child, left_child, false),
-            Operator::GtEq => satisfy_greater(right_child, left_child, true),
-            Operator::Lt => satisfy_greater(left_child, right_child, false)
+            // `satisfy_greater` returns the intervals in the order of its arguments:
+            // reverse the result whenever the children are passed in reverse order.
+            Operator::Gt => satisfy_greater(right_child, left_child, false)
                 .map(|t| t.map(reverse_tuple)),
-            Operator::LtEq => satisfy_greater(left_child, right_child, true)
+            Operator::GtEq => satisfy_greater(right_child, left_child, true)
                 .map(|t| t.map(reverse_tuple)),
+            Operator::Lt => satisfy_greater(left_child, right_child, false),
+            Operator::LtEq => satisfy_greater(left_child, right_child, true),
             _ => internal_err!(
                 "The operator must be a comparison operator to propagate intervals"
             ),
